@@ -1,6 +1,7 @@
 import Rangers.Generated.Bn256Consts
 import Mathlib.Tactic.NormNum.Prime
 import Rangers.Proofs.C13Dkg
+import Rangers.Proofs.C13Select
 /-!
 # C13 — any threshold subset of group members yields the same valid group signature
 
@@ -142,5 +143,78 @@ theorem recover_any_subset_counterexample : ¬ FullStatementRecover Bn256.order 
 theorem lagrange_collision_counterexample :
     lagrangeCoeffs Bn256.order [1, 1 + Bn256.order] = [0, 0] ∧ ¬ IdsDistinct Bn256.order [1, 1 + Bn256.order] := by
   decide
+
+/-! ## `RecoverGroupSignature`: independence of map order and of the random k-subset -/
+
+theorem mapM_honest {α : Type} (g : Nat → α) : ∀ (l : List (Nat × Option α)),
+    (∀ e ∈ l, e.2 = some (g e.1)) → l.mapM (fun e => e.2) = some (l.map (fun e => g e.1))
+  | [], _ => by simp
+  | e :: l, h => by
+    rw [List.mapM_cons, h e (by simp), mapM_honest g l (fun e' he' => h e' (by simp [he']))]
+    simp
+
+/-- **recover_group_signature_any** (`_partial`: ids distinct mod `r`): `RecoverGroupSignature` on a
+    witness map holding at least `k` honest shares returns `f(0)•h` whatever the iteration order of
+    the Go maps (`ord1`, `ord2`: arbitrary permutations) and whatever `RandomPerm` draws (`js`:
+    arbitrary in-range values). Hence the group signature does not depend on which members answered,
+    in which order, or on the node's internal randomness. -/
+theorem recover_group_signature_any_partial [Fact r.Prime] (ops : Ops G) (hops : LawfulOps r ops)
+    (cs : List Nat) (hcs : cs ≠ []) (h : G) (k : Nat) (hck : cs.length ≤ k)
+    (m : List (Nat × Option G)) (hkm : k ≤ m.length)
+    (hd : IdsDistinct r (m.map Prod.fst))
+    (hhon : ∀ e ∈ m, e.2 = some (ops.mul h ((shareSeckey r cs e.1).getD 0)))
+    (c : Choice (Nat × Option G)) (h1 : ∀ l, (c.ord1 l).Perm l) (h2 : ∀ l, (c.ord2 l).Perm l)
+    (hjs : k ≤ c.js.length) (hjr : ∀ i, i < k → c.js.getD i 0 + i < m.length) :
+    recoverGroupSignature ops r k m c = .ok (some (ops.mul h (cs.headD 0))) := by
+  have hk0 : 0 < k := by
+    rcases Nat.eq_zero_or_pos k with h0 | h0
+    · subst h0; exact absurd (List.length_eq_zero_iff.1 (Nat.le_zero.1 hck)) hcs
+    · exact h0
+  -- the entries actually used: `k` of them, a sub-permutation of the map
+  have key : ∃ it : List (Nat × Option G),
+      (c.ord2 (if k < m.length then pickSorted 0 (c.ord1 m) (sortInts (randomPerm m.length k c.js)) else m)).take k = it ∧
+      it.length = k ∧ it.Subperm m := by
+    refine ⟨_, rfl, ?_⟩
+    by_cases hlt : k < m.length
+    · simp only [hlt, if_true]
+      have hl1 : (c.ord1 m).length = m.length := (h1 m).length_eq
+      obtain ⟨hsub, hlen⟩ := pick_random_k (c.ord1 m) k c.js (by omega) hjs (by simpa [hl1] using hjr)
+      rw [hl1] at hsub hlen
+      have hl2 := (h2 (pickSorted 0 (c.ord1 m) (sortInts (randomPerm m.length k c.js)))).length_eq
+      have htake : (c.ord2 (pickSorted 0 (c.ord1 m) (sortInts (randomPerm m.length k c.js)))).take k =
+          c.ord2 (pickSorted 0 (c.ord1 m) (sortInts (randomPerm m.length k c.js))) :=
+        List.take_of_length_le (by omega)
+      rw [htake]
+      exact ⟨by omega, ((h2 _).subperm).trans ((hsub.subperm).trans (h1 m).subperm)⟩
+    · simp only [hlt, if_false]
+      have hl2 := (h2 m).length_eq
+      have htake : (c.ord2 m).take k = c.ord2 m := List.take_of_length_le (by omega)
+      rw [htake]
+      exact ⟨by omega, (h2 m).subperm⟩
+  obtain ⟨it, hit, hlen, hsp⟩ := key
+  unfold recoverGroupSignature
+  simp only [hit, hlen, Nat.lt_irrefl, if_false]
+  have hnot : ¬ (k = 0 ∧ 0 < m.length) := by omega
+  simp only [hnot, if_false]
+  have hmem : ∀ e ∈ it, e ∈ m := fun e he => hsp.subset he
+  rw [mapM_honest (fun x => ops.mul h ((shareSeckey r cs x).getD 0)) it (fun e he => hhon e (hmem e he))]
+  simp only
+  have hids : IdsDistinct r (it.map Prod.fst) := by
+    unfold IdsDistinct at hd ⊢
+    obtain ⟨l, hl1, hl2⟩ := hsp
+    have hs : ((l.map Prod.fst).map (· % r)).Sublist ((m.map Prod.fst).map (· % r)) := (hl2.map _).map _
+    have hp : ((l.map Prod.fst).map (· % r)).Perm ((it.map Prod.fst).map (· % r)) := (hl1.map _).map _
+    exact (hp.nodup_iff).1 (hd.sublist hs)
+  have := recover_any_subset_partial ops hops cs hcs h (it.map Prod.fst) (by simpa [hlen] using hck) hids
+  unfold honestShares at this
+  rw [List.map_map] at this
+  exact this
+
+/-- non-vacuity: 5 honest shares of `f = 5 + 3X + 2X²` over `r = 13`, threshold 3, map order
+    reversed, draws `[4,0,1]`. -/
+example :
+    recoverGroupSignature (zops 13) 13 3
+      ([1, 15, 3, 7, 9].map (fun x => (x, some ((zops 13).mul 1 ((shareSeckey 13 [5, 3, 2] x).getD 0)))))
+      ⟨List.reverse, [4, 0, 1], List.reverse⟩ = .ok (some 5) := by decide
 
 end Rangers.Props.C13
